@@ -196,16 +196,25 @@ impl ast::IfStmt {
         }
     }
 
+    // True if `node` is located in front of the `else` keyword, or if there is no `else`.
+    fn before_else(&self, node: &SyntaxNode) -> bool {
+        match self.else_token() {
+            Some(else_token) => node.text_range().start() < else_token.text_range().start(),
+            None => true,
+        }
+    }
+
+    // The branches are told apart by their position relative to the `else` keyword, because
+    // either of them can be a block (an `Expr`) or a single statement (a `Stmt`).
     pub fn then_branch_block(&self) -> Option<ast::BlockExpr> {
         match support::children(self.syntax()).nth(1)? {
-            ast::Expr::BlockExpr(block) => Some(block),
+            ast::Expr::BlockExpr(block) if self.before_else(block.syntax()) => Some(block),
             _ => None,
         }
     }
 
-    // Hmm. Not sure why this is not `nth(1)`. (It is equivalent to `nth(0)`.)
     pub fn then_branch_stmt(&self) -> Option<ast::Stmt> {
-        support::child(&self.syntax)
+        support::children::<ast::Stmt>(self.syntax()).find(|stmt| self.before_else(stmt.syntax()))
     }
 
     // This is the `if` body, corresponding to the condition evaluating true.
@@ -221,15 +230,19 @@ impl ast::IfStmt {
 
     // Return `Some` if the else branch is present and is a curly-delimited block.
     pub fn else_branch_block(&self) -> Option<ast::BlockExpr> {
-        match support::children(self.syntax()).nth(2)? {
-            ast::Expr::BlockExpr(block) => Some(block),
-            _ => None,
-        }
+        self.else_token()?;
+        support::children::<ast::Expr>(self.syntax())
+            .skip(1)
+            .find_map(|expr| match expr {
+                ast::Expr::BlockExpr(block) if !self.before_else(block.syntax()) => Some(block),
+                _ => None,
+            })
     }
 
     // Return `Some` if the else branch is present and is a single statement.
     pub fn else_branch_stmt(&self) -> Option<ast::Stmt> {
-        support::child(&self.syntax)
+        self.else_token()?;
+        support::children::<ast::Stmt>(self.syntax()).find(|stmt| !self.before_else(stmt.syntax()))
     }
 
     // This is the `else` body, corresponding to the condition evaluating false.
